@@ -107,7 +107,7 @@ class VG:
                 return self.ev(e.body)
             if k is False:
                 return self.ev(e.orelse)
-            return ("phi", c, self.ev(e.body), self.ev(e.orelse))
+            return mk_phi(c, self.ev(e.body), self.ev(e.orelse))
         if isinstance(e, (ast.Tuple, ast.List)):
             return ("tuple" if isinstance(e, ast.Tuple) else "list", tuple(self.ev(x) for x in e.elts))
         if isinstance(e, ast.Subscript):
@@ -210,7 +210,12 @@ class VG:
         elif isinstance(s, ast.Return):
             if s.value is not None:
                 v = self.ev(s.value)
-                self.ret = v if self.ret is None else ("phi?", self.ret, v)
+                if self.ret is None:
+                    self.ret = v
+                elif _has_none_arm(self.ret):
+                    # earlier returns happened on some paths only: this return serves the others
+                    self.ret = _fill_none(self.ret, v)
+                # else: unreachable return (every path has returned already)
         elif isinstance(s, ast.If):
             if is_validation_block(s):
                 return
@@ -233,9 +238,9 @@ class VG:
             out = {}
             for k2 in set(e1) | set(e2):
                 a, b = e1.get(k2, e0.get(k2)), e2.get(k2, e0.get(k2))
-                out[k2] = a if a == b else ("phi", cond, a, b)
+                out[k2] = mk_phi(cond, a, b)
             self.env = out
-            self.ret = r1 if r1 == r2 else ("phi", cond, r1, r2)
+            self.ret = mk_phi(cond, r1, r2)
         elif isinstance(s, ast.With):
             self.run(s.body)
         elif isinstance(s, ast.For):
@@ -262,6 +267,30 @@ class VG:
             self.run(s.body)
         elif isinstance(s, ast.While):
             self.run(s.body)
+
+
+def mk_phi(cond, a, b):
+    """phi node with the obvious simplifications (same-condition nesting, equal arms)."""
+    if isinstance(a, tuple) and a and a[0] == "phi" and a[1] == cond:
+        a = a[2]
+    if isinstance(b, tuple) and b and b[0] == "phi" and b[1] == cond:
+        b = b[3]
+    if a == b:
+        return a
+    return ("phi", cond, a, b)
+
+
+def _has_none_arm(t):
+    return isinstance(t, tuple) and t and t[0] == "phi" and (t[2] is None or t[3] is None
+                                                             or _has_none_arm(t[2]) or _has_none_arm(t[3]))
+
+
+def _fill_none(t, v):
+    if t is None:
+        return v
+    if isinstance(t, tuple) and t and t[0] == "phi":
+        return mk_phi(t[1], _fill_none(t[2], v), _fill_none(t[3], v))
+    return t
 
 
 def _load(t):
